@@ -520,10 +520,419 @@ def run_store_and_matcher(chk, n):
     strata["domain_matcher_random"] = len(cases)
 
 
+# ----------------------------------------------------------------------------- configuration events after first use
+# "a freshly constructed enforcer holding the current policy" is an enforcer that was given its configuration - the
+# (domain) matching functions of its role definitions, its role managers - BEFORE it loaded the policy.  The enforcer
+# under test receives the same configuration as EVENTS anywhere in the history: a function registered late (after
+# decisions and role queries), registered a second time, replaced by another one, removed again (None), the role manager
+# replaced by a pre-configured one (set_named_role_manager + build_role_links).  After every block of queries each
+# answer must equal that of a fresh enforcer that gets the configuration in force and then loads the current policy.
+#   (80, pt, f)        add_named_matching_func(ptype, F[f])
+#   (81, pt, f)        add_named_domain_matching_func(ptype, F[f])
+#   (82, pt, f, fd)    set_named_role_manager(ptype, <fresh manager of the same class, F[f] / F[fd] pre-registered>) + build_role_links()
+CFG_F = ["none", "key_match", "key_match2", "key_match3", "regex_match", "glob_match"]
+DSTAR = mgmt.ATOMS.a("d*")         # interned at import time, in this order (replays decode the same atoms)
+PAT_STAR = mgmt.ATOMS.a("data*")
+PAT_ID = mgmt.ATOMS.a("data:id")
+TEAM = mgmt.ATOMS.a("team")
+CFG_EVENTS = (80, 81, 82)
+_CFG_MEMO = {}
+
+
+def cfg_f(i):
+    return None if not i else getattr(_util, CFG_F[i])
+
+
+def cfg_rel(i):
+    """F[i] as a boolean relation on atoms (an exception = no match, as match_error_handler has it; none = nothing)"""
+    if i not in _CFG_MEMO:
+        f, memo = cfg_f(i), {}
+
+        def rel(a, b, f=f, memo=memo):
+            if f is None:
+                return False
+            if (a, b) not in memo:
+                try:
+                    memo[(a, b)] = bool(f(mgmt.ATOMS.s(a), mgmt.ATOMS.s(b)))
+                except Exception:  # noqa
+                    memo[(a, b)] = False
+            return memo[(a, b)]
+        _CFG_MEMO[i] = rel
+    return _CFG_MEMO[i]
+
+
+class CfgImpl(mgmt.Impl):
+    def call(self, op):
+        c = op[0]
+        if c not in CFG_EVENTS:
+            return super().call(op)
+        e, ptype = self.e, mgmt.PT[op[1]][1]
+        if c == 80:
+            e.add_named_matching_func(ptype, cfg_f(op[2]))
+        elif c == 81:
+            e.add_named_domain_matching_func(ptype, cfg_f(op[2]))
+        else:
+            rm = type(e.get_named_role_manager(ptype))(10)
+            if op[2]:
+                rm.add_matching_func(cfg_f(op[2]))
+            if op[3]:
+                rm.add_domain_matching_func(cfg_f(op[3]))
+            e.set_named_role_manager(ptype, rm)
+            e.build_role_links()
+        return [0, []]
+
+
+def cfg_after(ops):
+    """the configuration in force after `ops`: {(pt, 'mf' | 'dmf'): function index}"""
+    cfg = {}
+    for op in ops:
+        if op[0] == 80:
+            cfg[(op[1], "mf")] = op[2]
+        elif op[0] == 81:
+            cfg[(op[1], "dmf")] = op[2]
+        elif op[0] == 82:
+            cfg[(op[1], "mf")], cfg[(op[1], "dmf")] = op[2], op[3]
+    return cfg
+
+
+def fresh_results_cfg(kind, stores_obs, qops, cfg):
+    rows = [(0, r) for r in stores_obs[3]] + [(1, r) for r in stores_obs[4]] + [(2, r) for r in stores_obs[5]]
+    try:
+        fresh = CfgImpl(kind.with_(adapter=True, watcher=0), rows, False)
+        for (pt, slot), f in sorted(cfg.items()):
+            if f:
+                fresh.call((80 if slot == "mf" else 81, pt, f))
+        fresh.e.load_policy()
+    except Exception as exc:  # noqa  (the current policy cannot be loaded by a fresh enforcer)
+        return None
+    return [fresh.step(op)[0] for op in qops]
+
+
+def pattern_shared(kind, rows, ops):
+    """shared_pairs for the domains d1 d2 * d*: the same (user, role) recorded for a pattern domain and for another domain"""
+    seen = {}
+    for pt, r in mgmt.g_rules_mentioned(kind, rows, ops):
+        if pt == 1 and len(r) >= 3:
+            seen.setdefault((r[0], r[1]), set()).add(r[2])
+    return any(len(ds) > 1 and (STAR in ds or DSTAR in ds) for ds in seen.values())
+
+
+def name_overlap(kind, rows, ops, pool, names):
+    """two g2 rules giving the SAME role to users that some name matches both (under some function of the pool): removing
+    one of them is C14's listed finding (delete removes a shared grant) - never generated"""
+    seen = []
+    rels = [cfg_rel(f) for f in pool]
+    for pt, r in mgmt.g_rules_mentioned(kind, rows, ops):
+        if pt != 2 or len(r) < 2:
+            continue
+        for u2, r2 in seen:
+            if r2 == r[1] and u2 != r[0] and any((x == u2 or any(f(x, u2) for f in rels)) and
+                                                  (x == r[0] or any(f(x, r[0]) for f in rels)) for x in names):
+                return True
+        seen.append((r[0], r[1]))
+    return False
+
+
+def drop_adds(kind, rows, ops, bad):
+    """remove rows / adding calls after which bad(rows, ops) would hold"""
+    rows2 = []
+    for row in rows:
+        if not bad(rows2 + [row], []):
+            rows2.append(row)
+    out = []
+    for op in ops:
+        if ((op[0] in (1, 2) and op[1] in (1, 2)) or op[0] in (16, 19)) and bad(rows2, out + [op]):
+            continue
+        out.append(op)
+    return rows2, out
+
+
+def spec_check_cfgev(kind, rows, lf, ops, obs, impl=None):
+    out = []
+    i, n = 0, len(ops)
+    while i < n:
+        if ops[i][0] in QUERY_OPS:
+            j = i
+            while j < n and ops[j][0] in QUERY_OPS:
+                j += 1
+            exp = fresh_results_cfg(kind, obs[i], ops[i:j], cfg_after(ops[:i]))
+            if exp is not None:
+                for k in range(i, j):
+                    if obs[k][0] != exp[k - i]:
+                        cops = mgmt.concretise(rows, lf, ops[:k + 1], obs)
+                        tag = KNOWN_PREFIX if mgmt.prefix_aliases(kind, rows, cops) else \
+                            (KNOWN_DM if (kind.dom and pattern_shared(kind, rows, cops)) else None)
+                        return [(k, "query result differs from a freshly constructed enforcer that was given the configuration in force "
+                                    "(matching functions, role managers) and then loaded the current policy", tag)]
+            i = j
+        else:
+            i += 1
+    return out
+
+
+def pretty_cfg(op):
+    if op[0] == 80:
+        return ["add_named_matching_func", mgmt.PT[op[1]][1], CFG_F[op[2]]]
+    if op[0] == 81:
+        return ["add_named_domain_matching_func", mgmt.PT[op[1]][1], CFG_F[op[2]]]
+    if op[0] == 82:
+        return ["set_named_role_manager(fresh, pre-registered)+build_role_links", mgmt.PT[op[1]][1], CFG_F[op[2]], CFG_F[op[3]]]
+    return mgmt.pretty_op(op)
+
+
+def run_cfgev_cases(chk, kind, cases, label, max_report=2):
+    reported = 0
+    for n, (rows, lf, ops) in enumerate(cases):
+        impl = CfgImpl(kind, rows, lf)
+        obs = [impl.step(op) for op in ops]
+        mut = [op for op in ops if op[0] < 50 or op[0] in CFG_EVENTS]
+        chk.count(("config-events", kind.name, tuple(map(repr, mut))) if any(o[0] in CFG_EVENTS for o in ops) else None)
+        if n % max(1, len(cases) // 2) == 0:
+            chk.sample(dict(kind=kind.name, stratum=label, initial_rows=[[pt, mgmt.S(r)] for pt, r in rows],
+                            history=[pretty_cfg(o) for o in mut][:12], n_ops=len(ops)), cap=10)
+        viol = spec_check_cfgev(kind, rows, lf, ops, obs)
+        if not viol:
+            continue
+        step, msg, finding = viol[0]
+        small, last_obs = ops[:step + 1], obs[step]
+        if reported < max_report:
+            def fails(cand):
+                im = CfgImpl(kind, rows, lf)
+                ob = [im.step(o) for o in cand]
+                return bool(spec_check_cfgev(kind, rows, lf, cand, ob))
+            try:
+                small = mgmt.shrink(small, fails)
+                im = CfgImpl(kind, rows, lf)
+                ob = [im.step(o) for o in small]
+                v2 = spec_check_cfgev(kind, rows, lf, small, ob)
+                if v2:
+                    finding, last_obs = v2[0][2], ob[v2[0][0]]
+            except Exception:  # noqa
+                pass
+        reported += 1
+        chk.spec_fail(dict(variant="config-events", model_compared=False, kind=kind.name, kind_wire=kind.wire(), stratum=label, load_first=lf,
+                           initial_rows=[[pt, r] for pt, r in rows], ops=[list(o) for o in small],
+                           readable=dict(initial_rows=[[pt, mgmt.S(r)] for pt, r in rows], history=[pretty_cfg(o) for o in small])),
+                      dict(observation_at_failing_step=last_obs), "see 'what'", msg, finding)
+    chk.traces += len(cases)
+
+
+DOM_POOL = [0, 1, 2, 4]            # none, key_match ('*' and 'd*'), key_match2 ('*' only), regex_match ('d*' only)
+NAME_POOL = [0, 1, 2, 3, 4]
+
+
+def no_pattern_domain_queries(ops):
+    """requests and role queries are made in d1 and d2 only: every function of the pool says these match themselves (a
+    pattern domain queried literally under a function that does not is outside C14's premise)"""
+    def flat(x):
+        if isinstance(x, (list, tuple)):
+            for y in x:
+                yield from flat(y)
+        else:
+            yield x
+    return [op for op in ops if not (op[0] in QUERY_OPS and op[0] not in (52, 53, 54) and any(a in (STAR, DSTAR) for a in flat(op[1:])))]
+
+
+def insert_events(rng, ops, make, k):
+    """k configuration events at random positions (never inside a block of queries of a probe is not required: a block
+    simply ends there)"""
+    ops = list(ops)
+    for _ in range(k):
+        ops.insert(rng.randint(0, len(ops)), make())
+    return ops
+
+
+def cfgev_dom_cases(rng, kind, n):
+    """domain model; assignments recorded for d1, d2 and the pattern domains '*' and 'd*'; the domain matching function of
+    g is an EVENT: none -> f -> f again / another / none, or a pre-configured DomainManager swapped in"""
+    uni = mgmt.Universe(kind)
+    probe = mgmt.probe_ops(kind, uni)
+    for _ in range(n):
+        gen = mgmt.Gen(rng, kind, W)
+        gen.uni.doms = gen.uni.doms + [STAR, DSTAR]
+        rows = gen.rows(rng.randint(0, 8))
+        ops = list(probe) if rng.random() < 0.6 else []
+        ops += gen.history(rng.randint(4, 14), final_probe=False)
+        ops = no_pattern_domain_queries(ops)
+
+        def ev():
+            if rng.random() < 0.2:
+                return (82, 1, 0, rng.choice(DOM_POOL))
+            return (81, 1, rng.choice(DOM_POOL))
+        ops = insert_events(rng, ops, ev, rng.randint(1, 4)) + list(probe)
+        rows, ops = drop_adds(kind, rows, mgmt.drop_prefix_aliases(kind, rows, ops), lambda r_, o_: pattern_shared(kind, r_, o_))
+        yield (rows, True, ops)
+
+
+def cfgev_dom_targeted(kind):
+    """[probe] f1 probe call probe f2 probe, for every f1, f2 of the pool and a handful of grouping calls"""
+    import itertools
+    A = mgmt.ATOMS.a
+    uni = mgmt.Universe(kind)
+    probe = mgmt.probe_ops(kind, uni)
+    l1, l2, l3 = [A("alice"), A("admin"), STAR], [A("bob"), A("admin"), DSTAR], [A("editor"), A("admin"), A("d1")]
+    p0 = [(0, [A("admin"), A("d1"), A("data1"), A("read")]), (0, [A("admin"), A("d2"), A("data2"), A("write")]), (1, l1)]
+    gops = [(1, 1, l2), (3, 1, l1), (2, 1, [l2, l3]), (10, A("alice")), (31,), None]
+    for first, f1, f2, gop in itertools.product((True, False), DOM_POOL, DOM_POOL, gops):
+        ops = list(probe) if first else []
+        ops += [(81, 1, f1)] + list(probe)
+        if gop:
+            ops += [gop] + list(probe)
+        ops += [(81, 1, f2) if gop != (31,) else (82, 1, 0, f2)] + list(probe)
+        yield (p0, True, ops)
+
+
+def g2_universe(gen):
+    """resource roles with patterns on the USER side only: g2 rules (data1 | data2 | data* | data:id | grp -> grp | team)"""
+    A = mgmt.ATOMS.a
+    users, roles = [A("data1"), A("data2"), PAT_STAR, PAT_ID], [A("grp"), TEAM]
+    gen.uni.objs = [A("data1"), A("data2"), A("grp"), TEAM]
+    base = gen.uni.g_rule
+    rng = gen.rng
+
+    def g_rule(rng_, pt=1):
+        if pt != 2:
+            return base(rng_, pt)
+        if rng.random() < 0.12:
+            return [roles[0], roles[1]]
+        return [rng.choice(users), rng.choice(roles)]
+    gen.uni.g_rule = g_rule
+    return users + roles
+
+
+def scope_ok_names(rel, names, adds):
+    """C14's scope (PatternRM in_scope): no name matches a role-side name, matching is transitive towards assignment users"""
+    for x in names:
+        for (u, r) in adds:
+            if rel(x, r) and x != r:
+                return False
+    for x in names:
+        for p in names:
+            if rel(x, p):
+                for (u, r) in adds:
+                    if rel(p, u) and not rel(x, u):
+                        return False
+    return True
+
+
+W_G2 = dict(W, long_g=0, alias_remove=0.3)
+
+
+def cfgev_g2_cases(rng, kind, n):
+    """resource-role model; the NAME matching function of g2 is an event (late / again / replaced / None / manager swapped).
+    Decisions, has_link and the role queries of the plain definition g only: listings of a pattern role manager depend on
+    which names it was asked about before (C14), decisions do not."""
+    for _ in range(n):
+        gen = mgmt.Gen(rng, kind, W_G2)
+        names = g2_universe(gen)
+        pool = [0] + rng.sample(NAME_POOL[1:], rng.randint(1, 3))
+        adds = {(u, r) for u in names for r in (mgmt.ATOMS.a("grp"), TEAM) if u != r}
+        pool = [f for f in pool if scope_ok_names(cfg_rel(f), names, adds)]
+        uni = gen.uni
+        probe = mgmt.probe_ops(kind, uni)
+
+        def query():
+            c = rng.choice([50, 50, 50, 51, 59, 59, 55, 56, 52, 54])
+            if c in (50, 51):
+                return (c, rng.choice(uni.requests()))
+            if c == 59:
+                if rng.random() < 0.7:
+                    return (59, 2, rng.choice(names), rng.choice(names[-2:]), [])
+                return (59, 1, rng.choice(uni.subs), rng.choice(uni.subs), [])
+            if c in (55, 56):
+                return (c, rng.choice(uni.subs))
+            pt = rng.choice([0, 1, 2])
+            return (52, pt) if c == 52 else (54, pt, gen.rule(pt))
+        gen.query = query
+        rows = gen.rows(rng.randint(0, 8))
+        if rng.random() < 0.8:
+            # a permission on a resource role and a pattern assignment into it (so that the matching function decides something)
+            role = rng.choice(names[-2:])
+            for row in [(0, [rng.choice(uni.subs), role, rng.choice(uni.acts)]), (2, [rng.choice([PAT_STAR, PAT_ID]), role])]:
+                if row not in rows:
+                    rows.append(row)
+                    gen.seen[row[0]].append(list(row[1]))
+        ops = list(probe) if rng.random() < 0.6 else []
+        ops += gen.history(rng.randint(4, 14), final_probe=False)
+
+        def ev():
+            if rng.random() < 0.2:
+                return (82, 2, rng.choice(pool), 0)
+            if rng.random() < 0.1:
+                return (82, 1, 0, 0)
+            return (80, 2, rng.choice(pool))
+        ops = insert_events(rng, ops, ev, rng.randint(1, 4)) + list(probe)
+        rows, ops = drop_adds(kind, rows, mgmt.drop_prefix_aliases(kind, rows, ops),
+                              lambda r_, o_: name_overlap(kind, r_, o_, pool, names))
+        yield (rows, True, ops)
+
+
+def cfgev_g2_targeted(kind):
+    import itertools
+    A = mgmt.ATOMS.a
+    gen = mgmt.Gen(__import__("random").Random(0), kind, W_G2)
+    g2_universe(gen)
+    probe = mgmt.probe_ops(kind, gen.uni)
+    l1, l2, l3 = [PAT_STAR, A("grp")], [PAT_ID, TEAM], [A("data1"), TEAM]
+    p0 = [(0, [A("alice"), A("grp"), A("read")]), (0, [A("bob"), TEAM, A("write")]), (1, [A("editor"), A("alice")]), (2, l1)]
+    gops = [(1, 2, l2), (3, 2, l1), (1, 2, l3), (31,), None]
+    for first, f1, f2, gop in itertools.product((True, False), NAME_POOL, NAME_POOL, gops):
+        ops = list(probe) if first else []
+        ops += [(80, 2, f1)] + list(probe)
+        if gop:
+            ops += [gop] + list(probe)
+        ops += [(80, 2, f2) if gop != (31,) else (82, 2, f2, 0)] + list(probe)
+        if gop:
+            ops += [(3, 2, l1)] + list(probe)
+        yield (p0, True, ops)
+
+
+def run_config_events(chk, n):
+    strata = chk.extra.setdefault("strata", {})
+    kind = mgmt.KINDS["dom"]
+    cases = list(cfgev_dom_targeted(kind))
+    run_cfgev_cases(chk, kind, cases, "config-events-domain-matcher-targeted")
+    strata["config_events_domain_matcher_targeted"] = len(cases)
+    cases = list(cfgev_dom_cases(chk.rng, kind, n))
+    run_cfgev_cases(chk, kind, cases, "config-events-domain-matcher-random")
+    strata["config_events_domain_matcher_random"] = len(cases)
+    kind = mgmt.KINDS["rbac_res"]
+    cases = list(cfgev_g2_targeted(kind))
+    run_cfgev_cases(chk, kind, cases, "config-events-name-matcher-targeted")
+    strata["config_events_name_matcher_targeted"] = len(cases)
+    cases = list(cfgev_g2_cases(chk.rng, kind, n))
+    run_cfgev_cases(chk, kind, cases, "config-events-name-matcher-random")
+    strata["config_events_name_matcher_random"] = len(cases)
+
+
+def replay_cfgev(chk, c):
+    import sys
+    w = c["kind_wire"]
+    kind = mgmt.Kind(c["kind"], *[bool(x) for x in w[:5]], eff=w[5], adapter=bool(w[6]), watcher=w[7])
+    rows = [(pt, r) for pt, r in c["initial_rows"]]
+    ops = [tuple(o) for o in c["ops"]]
+    lf = c.get("load_first", True)
+    impl = CfgImpl(kind, rows, lf)
+    obs = [impl.step(o) for o in ops]
+    viol = spec_check_cfgev(kind, rows, lf, ops, obs)
+    print("replay history:", [pretty_cfg(o) for o in ops])
+    print("  spec violations on the implementation:", viol[:3])
+    if viol and viol[0][2] is None:
+        print(f"VIOLATION property={chk.prop} replay={chk.replay_file}")
+        sys.exit(1)
+    if viol:
+        print(f"KNOWN-FINDING: property={chk.prop} {viol[0][2]}")
+        sys.exit(0)
+    print("replay passes: every query equals that of a fresh enforcer given the configuration in force and the current policy")
+    sys.exit(0)
+
+
 def replay(chk):
     import json
     c = (json.load(open(chk.replay_file)).get("case") or {})
     v = c.get("variant")
+    if v == "config-events":
+        return replay_cfgev(chk, c)
     if c.get("stratum") == "incremental-filtered":
         chk.spec_failures = []
         stratum_incremental_filtered(chk)
@@ -582,6 +991,7 @@ def run(chk, n_random, targeted_len):
         mgmt.run_cases(chk, kind, cases, spec_check_cfg, label=f"config-{kn}")
         chk.extra["strata"][f"config_{kn}"] = len(cases)
     run_store_and_matcher(chk, max(40, n_random // 2))
+    run_config_events(chk, max(60, n_random // 2))
 
 
 def main():
@@ -597,6 +1007,14 @@ def main():
                  "util.key_match as domain matching function on the enforcer under test AND on the fresh reference enforcer, "
                  "assignments recorded for d1, d2 and the pattern domain '*', requests and role queries in all three (all "
                  "pairs of calls from a 9-call alphabet with probes, and random histories); implementation-level spec only")
+    chk.rule += ("; configuration-events strata: the configuration of the role definitions arrives as EVENTS inside the history - "
+                 "add_named_domain_matching_func(g, f) on the domain model (f in none / key_match / key_match2 / regex_match; "
+                 "assignments in d1, d2, '*', 'd*'; requests and role queries in d1, d2) and add_named_matching_func(g2, f) on the "
+                 "resource-role model (f in none / key_match / key_match2 / key_match3 / regex_match; g2 users data1, data2, 'data*', "
+                 "'data:id'; decisions, has_link and g's role queries), registered late, again, replaced, removed, or a pre-configured "
+                 "role manager swapped in (set_named_role_manager + build_role_links); targeted: [probe] f1 probe call probe f2 probe "
+                 "for all f1, f2 and a handful of calls, plus random histories with 1-4 events; the fresh reference enforcer gets the "
+                 "configuration in force BEFORE it loads the current policy")
     chk.assumptions = [
         "domain-matcher strata only: no (user, role) pair is recorded both for '*' and for a concrete domain (both assignments "
         "would be one uncounted link in the concrete domain's cached manager - reported separately)",
@@ -605,10 +1023,15 @@ def main():
         "C04/overlong-rules-share-a-link (probed on every run, excluded from the random strata)",
         "no role-name matching functions registered (pattern assignments are C14); a DOMAIN matching function only in the "
         "domain-matcher strata, where the fresh reference enforcer gets the same one",
+        "configuration-events strata: matching functions are registered, replaced and removed during the history and the fresh "
+        "reference enforcer is given the configuration in force before it loads the policy; name patterns stay within C14's scope "
+        "(user side of g2 only, no two g2 rules in one history giving the same role to users a common name matches - C14's listed "
+        "finding), pattern domains are not queried literally, no (user, role) pair in a pattern domain and another domain; "
+        "listings of the pattern role manager are not observed (they depend on which names were asked about, C14)",
         "the fresh reference enforcer is a real casbin.Enforcer loading the current policy through an in-memory adapter",
     ]
     chk.trusted = ["hand-written models coq/theories/{Policy,RoleGraph,Mgmt}.v tied by the differential history correspondence"]
-    chk.build(translators=["rolelinks"], oracle_name="Mgmt")
+    chk.build(translators=["rolelinks", "loadpolicy"], oracle_name="Mgmt")
     if chk.replay_file:
         return replay(chk)
     if chk.tier == "thorough":
